@@ -5,6 +5,7 @@ import Wheatley.Generated.HandlerIR
 import Wheatley.Props.C17
 import Wheatley.Props.C15
 import Wheatley.Props.C10
+import Wheatley.Lemmas.Cli
 namespace Wheatley.C19
 open Wheatley.Server
 
@@ -610,5 +611,18 @@ theorem finishTick_leaves_wait (wt : K → K) (w : World K) (bell : Nat) (uc : B
 end
 
 theorem inactivity_is_300s : Generated.inactivityExitTime = (300, 1) := rfl
+
+/-! ### `server_main` (`Model/Cli.lean`) -/
+
+/-- Spawned by Ringing Room, Wheatley is built with nothing to ring (the place holder: a method has to be
+selected first), under the instance id it was given, talking to the socket server on the local port it was given. -/
+theorem server_mode_starts_empty (port id : Option Int) :
+    (match (Cli.serverMain port id).cfg.source with | .gen g => g.kind == .placeholder | _ => false) = true ∧
+    (Cli.serverMain port id).serverId = id ∧
+    (∀ p : Int, port = some p → (Cli.serverMain port id).url = "http://127.0.0.1:".toList ++ (toString p).toList) := by
+  refine ⟨rfl, rfl, ?_⟩
+  intro p hp
+  subst hp
+  rfl
 
 end Wheatley.C19
